@@ -475,7 +475,7 @@ void World::on_alloc_fail(uint64_t index) {
 	trace.tag("allocfail"); trace.u64(index);
 	fault_turn = (long)res.st.batches; faults_fired++;
 	if (index) probe("fault:alloc_failed");
-	for (auto &cl : clients) { cl.c19_broken_by_fault = true; if (cl.c19) cl.no_expect = true; }   // echo endpoint: what a connection that lived through the failure gets back is not predictable
+	for (auto &cl : clients) { cl.c19_broken_by_fault = true; if (cl.c19) cl.c19_set_lenient(); }   // echo endpoint: what a connection that lived through the failure gets back is not predictable
 	if (!started) probe("alloc_failed_during_startup");
 	// the outcome of whatever is being processed now is not predictable: requests outstanding at this moment may stay unanswered (never answered twice)
 	// (the remaining messages of the interrupted read are accounted in ledger mode: the reference model's "outcome must be signalled before further input" rule no longer applies)
